@@ -5,7 +5,7 @@
     `AdaptiveCache<K, ()>` is therefore replayed in the same model, with the values kept beside the cache. *)
 From Coq Require Import List ZArith.
 Import ListNotations.
-From VF Require Import Base Lru Arc KeyProj KeyProjSlru KeyProjTwoQ KeyProjArc.
+From VF Require Import Base Lru Arc KeyProj KeyProjSlru KeyProjTwoQ KeyProjArc KeyProjWTiny KeyProjCompRun.
 
 Theorem C09_put_is_value_blind : forall s k v,
   match aput s k v with
@@ -37,6 +37,15 @@ Theorem C09_lookups_are_value_blind : forall s k,
   acontains s k = (kmem k (kitems (kt1 (aproj s))) || kmem k (kitems (kt2 (aproj s))))%bool.
 Proof. exact alookups_blind. Qed.
 
+(** whole histories: after any sequence of put / get / get_mut / remove with whatever values the four lists and [p] are
+    what ARC over keys alone holds after the same calls - and the run panics exactly when that one does *)
+Theorem C09_history_is_value_blind : forall ops s,
+  match crun arc avstep s ops with
+  | Ok s' => ckrun karc akstep (aproj s) (map cstrip ops) = Ok (aproj s')
+  | Panic n => ckrun karc akstep (aproj s) (map cstrip ops) = Panic n
+  end.
+Proof. exact arun_blind. Qed.
+
 (** a ghost hit, with and without values: [p] moves alike and the same entry is demoted *)
 Definition aput5 (a : val) : res arc :=
   do (s1, _) <- aput (arc_new 2) 1 a;
@@ -57,3 +66,4 @@ Print Assumptions C09_replace_is_value_blind.
 Print Assumptions C09_get_is_value_blind.
 Print Assumptions C09_remove_is_value_blind.
 Print Assumptions C09_lookups_are_value_blind.
+Print Assumptions C09_history_is_value_blind.
